@@ -303,9 +303,12 @@ YStep(op) ==
     /\ UNCHANGED <<phase, forkPt, xTip, xAlive, forks>>
 
 \* a change that has the surviving tips of both branches as parents: no concurrent changes.
-\* (Only when Y has a survivor: a change on top of X alone would be evaluated *before* Y.)
+\* Only when the tip of Y survived: (1) a change on top of X alone would be evaluated *before* Y;
+\* (2) a pruned tail of Y would not be an ancestor of the merging change, i.e. the merging change
+\* would be concurrent with it, and `siblings_of` also counts changes that are evaluated later --
+\* the tail would then be evaluated *with* concurrent changes, which is another history shape.
 Join(op) ==
-    /\ phase = "y" /\ yAlive > 0 /\ nops < MaxOps
+    /\ phase = "y" /\ ~dead /\ nops < MaxOps
     /\ \E r \in {EvalOp(st, op, nops + 1, FALSE)} :
          /\ Eval(op, "join", {aliveTip} \cup (IF xAlive > 0 THEN {xTip} ELSE {}), r)
          /\ aliveTip' = IF r.ok THEN nops + 1 ELSE aliveTip
@@ -317,7 +320,6 @@ Join(op) ==
 SkipOp == [author |-> CHOOSE k \in Authors : TRUE,
            acts |-> <<[t |-> "reject", rev |-> Root, doc |-> 0, sig |-> TRUE]>>]
 Skip(op) ==
-    /\ op = SkipOp
     /\ dead /\ nops < MaxOps /\ (phase = "x" => nops + 1 < MaxOps)
     /\ nops' = nops + 1 /\ chainTip' = nops + 1
     /\ log' = Append(log, Entry(op, "skip", {chainTip}, "skipped", "", <<>>))
@@ -329,8 +331,6 @@ Next ==
        \/ /\ (~dead \/ phase = "x")
           /\ \E op \in OpsIn(st) :
                 LinStep(op) \/ ForkX(op) \/ XStep(op) \/ ForkY(op) \/ YStep(op) \/ Join(op)
-       \/ /\ dead /\ phase = "y"
-          /\ \E op \in OpsIn(st) : Join(op)
 
 Spec == Init /\ [][Next]_vars
 
@@ -346,34 +346,36 @@ TypeOK ==
     /\ \A r \in DOMAIN st.revs : st.revs[r].state \in {"active", "accepted", "rejected", "stale", "redacted"}
 
 \* the last evaluated change, if it was evaluated at all
-Last == log'[Len(log')]
-Evaluated == nops' = nops + 1 /\ Last.out # "skipped"
+LastEntry == log'[Len(log')]
+Evaluated == nops' = nops + 1 /\ LastEntry.out # "skipped"
 
 \* C04, first clause: the current revision only changes to a child of itself for which a strict
 \* majority of the delegates of the replaced document have a valid signature recorded
-C04_Majority ==
-    [][st'.current # st.current =>
+MajorityStep ==
+    st'.current # st.current =>
          /\ st'.revs[st'.current].parent = st.current
-         /\ 2 * Cardinality(CurDels(st) \cap st'.revs[st'.current].vs) > Cardinality(CurDels(st))]_vars
+         /\ 2 * Cardinality(CurDels(st) \cap st'.revs[st'.current].vs) > Cardinality(CurDels(st))
+C04_Majority == [][MajorityStep]_vars
 
 \* C04, second clause: changes authored by a key that is not a delegate of the current document
 \* (current at the time the change is evaluated) leave the identity as it was
-C04_Strangers ==
-    [][(Evaluated /\ Last.op.author \notin CurDels(st)) => st' = st]_vars
+StrangerStep == (Evaluated /\ LastEntry.op.author \notin CurDels(st)) => st' = st
+C04_Strangers == [][StrangerStep]_vars
 
 \* C04, third clause: a revision that has been accepted stays as it is -- it is not redacted,
 \* not edited, keeps its document; and the current revision is replaced by a child only
-C04_AcceptedStable ==
-    [][\A r \in DOMAIN st.revs : st.revs[r].state = "accepted" =>
+AcceptedStableStep ==
+    \A r \in DOMAIN st.revs : st.revs[r].state = "accepted" =>
           /\ r \in DOMAIN st'.revs
           /\ st'.revs[r].state = "accepted"
           /\ st'.revs[r].title = st.revs[r].title
           /\ st'.revs[r].doc = st.revs[r].doc
-          /\ st'.revs[r].parent = st.revs[r].parent]_vars
+          /\ st'.revs[r].parent = st.revs[r].parent
+C04_AcceptedStable == [][AcceptedStableStep]_vars
 
 \* C06 for this object: a refused change leaves no trace
-RejectedLeavesNoTrace ==
-    [][(Evaluated /\ Last.out = "rejected") => st' = st]_vars
+NoTraceStep == (Evaluated /\ LastEntry.out = "rejected") => st' = st
+RejectedLeavesNoTrace == [][NoTraceStep]_vars
 
 \* structural invariants of the object (they make the `assert_eq!(revision.parent, current)` in
 \* `Identity::action` unreachable)
